@@ -297,6 +297,56 @@ theorem crash_leaves_complete_file (s0 : PState) (h0 : Init s0) (steps : List St
     · exact Or.inl h
     · exact Or.inr ⟨x, hx, h⟩
 
+
+/-- **Kill, restart, repeat: the main file is always a complete list.**  Over a
+whole life — any interleaving, killed at any point, restarted by `New` over what
+is on disk (stranded staging files included), any further interleaving, killed
+again, … — the main file is at every moment either the file the first process
+found or the complete rendering of some snapshot; a restart itself leaves it
+byte-for-byte alone (`restart_touches_no_file`; the real `New` is checked for
+exactly this by the `bl restart` and `bl crash` ops). -/
+theorem epochs_leave_complete_file (w c : List Str) (s0 : PState) (h0 : Init s0)
+    (steps0 : List Step) (epochs : List (List Step)) :
+    (runEpochs w c s0 steps0 epochs).main = s0.main ∨
+      ∃ x : Snap, (runEpochs w c s0 steps0 epochs).main = some (render x) := by
+  have base : (run s0 steps0).main = s0.main ∨ ∃ x : Snap, (run s0 steps0).main = some (render x) := by
+    rcases crash_leaves_complete_file s0 h0 steps0 with h | ⟨x, _, h⟩
+    · exact Or.inl h
+    · exact Or.inr ⟨x, h⟩
+  unfold runEpochs
+  generalize run s0 steps0 = cur at base
+  induction epochs generalizing cur with
+  | nil => exact base
+  | cons e t ih =>
+    simp only [List.foldl_cons]
+    apply ih
+    have hinit : Init (restart w c cur) := ⟨rfl, rfl, rfl, rfl, rfl, rfl, rfl⟩
+    rcases crash_leaves_complete_file (restart w c cur) hinit e with h | ⟨x, _, h⟩
+    · have hm : (run (restart w c cur) e).main = cur.main := h
+      rw [hm]
+      exact base
+    · exact Or.inr ⟨x, h⟩
+
+/-- a restart reads the directory and writes nothing: the main file is the one
+the dead process left, and the staging file it stranded is still there (it is
+parsed on this and on every later directory walk, never promoted). -/
+theorem restart_touches_no_file (w c : List Str) (s : PState) :
+    (restart w c s).main = s.main ∧ (restart w c s).orphans = s.orphans ++ strandedNow s ∧
+    Init (restart w c s) :=
+  ⟨rfl, rfl, ⟨rfl, rfl, rfl, rfl, rfl, rfl, rfl⟩⟩
+
+/-- non-vacuity: killed while the second line of a staging file is being written,
+restarted; the main file is still the first list and the half-written name of
+the staging file is what the restarted process additionally picks up. -/
+theorem restart_example :
+    let s := run {} ([.mutate (.set "a.com.".toList), .begin 0 true] ++ List.replicate 2 (.write true) ++
+      [.sync true, .close true, .rename true, .commit, .mutate (.set "b.com.".toList), .begin 0 true,
+       .write true, .write true])
+    let r := restart [] [] s
+    r.main = some [headerLine, "a.com.".toList] ∧ r.orphans = [[headerLine, "a.com.".toList]] ∧
+      r.mem.m = ["a.com.".toList] := by
+  decide
+
 /-- The main file changes in exactly one step: a successful `rename` of a temp
 file that holds every line of its snapshot (written, synced, closed). -/
 theorem main_changes_only_by_complete_rename (m0 : Option (List Str)) (s : PState) (st : Step) (h : Inv m0 s) :
@@ -554,5 +604,49 @@ the model writes, and the loader takes it for a comment. -/
 theorem persist_header_is_a_comment :
     SdnsVerif.Gen.C18.persist_header.toList = headerLine ∧ parseLine headerLine = [] := by
   decide
+
+/-! ## 5. The HTTP API in front of the list -/
+
+/-- **Only an authorized, well-formed request changes anything**: a request that
+fails `checkToken` (401), a read (`exists`, `get`) and a batch without keys (400)
+take no step at all — memory, version, pending snapshots and the file are
+untouched; an authorized `set` / `remove` / batch is exactly one `mutate` step of
+the persistence model (so `persist_converges` speaks about API traffic), and the
+number it reports is the number of keys that changed. -/
+theorem api_request_effect (authorized : Bool) (s : PState) (req : ApiReq) :
+    (authorized = false → apiStep authorized s req = s ∧ apiStatus authorized s.mem req = 401) ∧
+    (apiToOp req = none → apiStep authorized s req = s) ∧
+    (authorized = true → ∀ op, apiToOp req = some op →
+        apiStep authorized s req = step s (.mutate op) ∧ apiStatus authorized s.mem req = 200 ∧
+        apiValue s.mem req = applyOpCount s.mem op) := by
+  refine ⟨?_, ?_, ?_⟩
+  · intro h; subst h; exact ⟨rfl, rfl⟩
+  · intro h; unfold apiStep; rw [h]; cases authorized <;> rfl
+  · intro h op hop
+    subst h
+    refine ⟨by unfold apiStep; rw [hop]; rfl, ?_, ?_⟩
+    · cases req <;> simp [apiToOp] at hop <;> simp [apiStatus, *]
+    · cases req <;> simp [apiToOp] at hop
+      · rw [← hop]; rfl
+      · rw [← hop]; rfl
+      · rw [← hop.2]; rfl
+      · rw [← hop.2]; rfl
+
+/-- `get` is the exact-key lookup: it reports a key only if `Exists` does too,
+unless the whitelist shadows it — and never a wildcard suffix. -/
+theorem get_implies_listed (b : Mem) (k : Str) (h : getExact b k = true) :
+    canonical k ∈ b.m ∧ («exists» b k = true ∨ matchHierarchy (canonical k) b.w = true) := by
+  unfold getExact at h
+  have hm : canonical k ∈ b.m := by simpa using h
+  refine ⟨hm, ?_⟩
+  unfold «exists» existsCanon
+  cases hw : matchHierarchy (canonical k) b.w with
+  | true => exact Or.inr rfl
+  | false => left; simp [hm]
+
+example : apiStatus false {} (.setKey "a.com".toList) = 401 ∧
+    (apiStep true {} (.setKey "a.com".toList)).mem.m = ["a.com.".toList] ∧
+    apiStatus true {} (.setBatch []) = 400 ∧ apiStatus true {} (.getKey "a.com".toList) = 404 := by decide
+
 
 end SdnsVerif.Props.C18
